@@ -35,12 +35,12 @@ func init() {
 			"(D1) the reader's limit is the constructor's size parameter stored unchanged; every success return that follows the decoding of a length prefix passes the within-limit side of a comparison `prefix <= limit` made on an image of the prefix (exact operator: a frame of exactly the limit is accepted, limit+1 rejected; the exceeding side reaches only error returns); every make/slice/size-taking call whose operand derives from the prefix is dominated by the within side of an upper-bound comparison and the operand is provably non-negative (unsigned type, widening from unsigned, or a dominating sign test) — evaluated for int=64 and int=32; " +
 			"(D2) no integer conversion between the decoded prefix (or the limit) and a comparison/use narrows the value before it has been bounded, for int=64 and int=32; " +
 			"(D3) the error of every decode/read/write/marshal call in the reader and writer paths is tested with a failing side that reaches only error returns, or is returned; the bytes given to proto.Unmarshal are exactly the bytes of a preceding full read whose success dominates the decode; every success return of ReadMsg passes the nil-error side of that decode; " +
-			"(D4) the reader obtains bytes only through chunk-agnostic calls (io.ReadFull, io.ReadAtLeast with min=len(buf), binary.ReadUvarint/ReadByte on the buffered reader), never a bare Read (a Read inside a loop that uses the count is accepted with a note); " +
+			"(D4) the reader obtains bytes only through chunk-agnostic calls (io.ReadFull, io.ReadAtLeast with min=len(buf), binary.ReadUvarint/ReadByte on the buffered reader), never a bare Read (a Read inside a loop that uses the count is accepted with a note); the object those calls read from is resolved from what the constructors store in the reader's field: a library type (bufio.Reader, ...) or the caller's reader as given is accepted (a caller-supplied io.ByteReader picked up by a type assertion is noted), while for a module type the ReadByte/Read method the library call will invoke must itself honour the io.Reader contract — every bare Read in it uses the byte count and no return on the error side is reached before the count has been examined (bytes delivered together with io.EOF must not be lost); " +
 			"(D5) writer and reader of one pair use the same prefix codec family and width, the same byte-order source, the reader reads exactly the prefix width, and on the writer's marshal-then-write path the value encoded is len(body) of the very slice written after the prefix (prefix first). " +
 			"Not decided: byte-identical round trip of message contents (protobuf is trusted), that the grow-if-needed test makes the slice fit its buffer, the length arithmetic of the marshaler fast path (Size()+MarshalTo into one buffer; noted), overflow of the writer's uint32 prefix for bodies of 4 GiB and more (noted), stores to the reused buffer between the read and the decode, behaviour of NewFullReader/NewFullWriter (not length-delimited), anything executed.",
 		Trusted:     []string{"golang.org/x/tools go/packages+go/ssa (v0.29.0), go/types", "encoding/binary, io.ReadFull/ReadAtLeast, bufio.Reader and google.golang.org/protobuf/proto behave as documented (proto.Unmarshal copies what it keeps)", "package-level error variables (io.ErrShortBuffer, io.EOF, ...) are non-nil"},
 		Assumptions: []string{"the configured limit is non-negative and representable in every integer type the length passes through", "int is 32 or 64 bits wide; pkg/protoio has no architecture-specific files", "only module code is analysed; dependencies by their typed API"},
-		Floors:      map[string]int{"D1": 8, "D2": 4, "D3": 17, "D4": 3, "D5": 7},
+		Floors:      map[string]int{"D1": 8, "D2": 4, "D3": 17, "D4": 5, "D5": 7},
 		Run:         runC18,
 	})
 }
@@ -1179,6 +1179,7 @@ func runC18(c *Ctx) {
 			c18ReaderBounds(c, s, limit)
 			c18Errors(c, s, true)
 			c18Chunking(c, s)
+			c18ByteSource(c, s)
 		}
 		// ---- writer side
 		var writers []*c18Side
@@ -2050,6 +2051,388 @@ func c18Chunking(c *Ctx, s *c18Side) {
 	c.count("byte_obtaining_calls", total)
 	if total == 0 {
 		c.undecided("D4", c18ShortFn(s.root)+"+reads", s.root.Pos(), "no byte-obtaining call recognised in the reader")
+	}
+}
+
+// ---------- D4 (continued): what the byte-obtaining calls read from ----------
+
+// c18Dyn describes the objects a stream value may hold at run time.
+type c18Dyn struct {
+	Types   []types.Type // concrete types (dynamic type of an interface value, or the static type)
+	Lib     []string     // results of library constructors returning an interface
+	Caller  bool         // the caller's reader, as given to the exported constructor
+	Assert  bool         // the caller's reader, picked up through a type assertion
+	Unknown []string
+}
+
+func (d *c18Dyn) addType(t types.Type) {
+	for _, x := range d.Types {
+		if types.Identical(x, t) {
+			return
+		}
+	}
+	d.Types = append(d.Types, t)
+}
+
+func c18ModuleType(t types.Type) bool {
+	if p, ok := t.(*types.Pointer); ok {
+		t = p.Elem()
+	}
+	n, ok := t.(*types.Named)
+	if !ok || n.Obj() == nil || n.Obj().Pkg() == nil {
+		return false
+	}
+	p := n.Obj().Pkg().Path()
+	return p == modulePath || strings.HasPrefix(p, modulePath+"/")
+}
+
+// c18DynTypes resolves what v may hold: through interface conversions, phis, type assertions,
+// loads of struct fields (every store to the field in pkg/protoio) and module constructors.
+func c18DynTypes(w *World, v ssa.Value, d *c18Dyn, seen map[ssa.Value]bool, depth int) {
+	if v == nil || seen[v] {
+		return
+	}
+	seen[v] = true
+	if depth > 12 {
+		d.Unknown = append(d.Unknown, v.Name())
+		return
+	}
+	if _, isI := v.Type().Underlying().(*types.Interface); !isI {
+		d.addType(v.Type())
+		return
+	}
+	assertBase := func(x ssa.Value) {
+		b := x
+		for {
+			ci, ok := b.(*ssa.ChangeInterface)
+			if !ok {
+				break
+			}
+			b = ci.X
+		}
+		if _, isPar := b.(*ssa.Parameter); isPar {
+			d.Assert = true
+			return
+		}
+		c18DynTypes(w, x, d, seen, depth+1)
+	}
+	switch x := v.(type) {
+	case *ssa.Const:
+		// nil interface: nothing to read from
+	case *ssa.MakeInterface:
+		d.addType(x.X.Type())
+	case *ssa.ChangeInterface:
+		c18DynTypes(w, x.X, d, seen, depth+1)
+	case *ssa.Phi:
+		for _, e := range x.Edges {
+			c18DynTypes(w, e, d, seen, depth+1)
+		}
+	case *ssa.TypeAssert:
+		assertBase(x.X)
+	case *ssa.Extract:
+		switch t := x.Tuple.(type) {
+		case *ssa.TypeAssert:
+			if x.Index == 0 {
+				assertBase(t.X)
+			}
+		case *ssa.Call:
+			c18DynCall(w, t, x.Index, d, seen, depth)
+		default:
+			d.Unknown = append(d.Unknown, x.Name())
+		}
+	case *ssa.Call:
+		c18DynCall(w, x, 0, d, seen, depth)
+	case *ssa.Parameter, *ssa.FreeVar:
+		d.Caller = true
+	case *ssa.UnOp:
+		if x.Op != token.MUL {
+			d.Unknown = append(d.Unknown, x.Name())
+			return
+		}
+		if f, ok := c18FieldOfAddr(x.X); ok {
+			n := 0
+			for _, fn := range c18PkgFuncs(w) {
+				for _, b := range fn.Blocks {
+					for _, in := range b.Instrs {
+						st, ok := in.(*ssa.Store)
+						if !ok {
+							continue
+						}
+						if g, ok := c18FieldOfAddr(st.Addr); ok && g == f {
+							n++
+							c18DynTypes(w, st.Val, d, seen, depth+1)
+						}
+					}
+				}
+			}
+			if n == 0 {
+				d.Unknown = append(d.Unknown, "field "+f.name()+" (never stored)")
+			}
+			return
+		}
+		if al, ok := x.X.(*ssa.Alloc); ok && al.Referrers() != nil {
+			for _, r := range *al.Referrers() {
+				if st, ok := r.(*ssa.Store); ok && st.Addr == ssa.Value(al) {
+					c18DynTypes(w, st.Val, d, seen, depth+1)
+				}
+			}
+			return
+		}
+		d.Unknown = append(d.Unknown, x.Name())
+	default:
+		d.Unknown = append(d.Unknown, v.Name())
+	}
+}
+
+func c18DynCall(w *World, call *ssa.Call, idx int, d *c18Dyn, seen map[ssa.Value]bool, depth int) {
+	cal := staticCallee(call.Common())
+	if cal != nil && inModule(cal) && cal.Blocks != nil {
+		for _, r := range returnsOf(cal) {
+			if res := retResults(r); idx < len(res) {
+				c18DynTypes(w, res[idx], d, seen, depth+1)
+			}
+		}
+		return
+	}
+	if cal != nil {
+		d.Lib = append(d.Lib, funcKey(cal))
+		return
+	}
+	d.Unknown = append(d.Unknown, call.Name())
+}
+
+// c18DerivesFrom: v is computed from src (conversions, arithmetic, phis).
+func c18DerivesFrom(v, src ssa.Value, depth int) bool {
+	if v == nil || depth > 5 {
+		return false
+	}
+	if v == src {
+		return true
+	}
+	switch x := v.(type) {
+	case *ssa.Convert:
+		return c18DerivesFrom(x.X, src, depth+1)
+	case *ssa.ChangeType:
+		return c18DerivesFrom(x.X, src, depth+1)
+	case *ssa.UnOp:
+		if x.Op != token.MUL {
+			return c18DerivesFrom(x.X, src, depth+1)
+		}
+	case *ssa.BinOp:
+		return c18DerivesFrom(x.X, src, depth+1) || c18DerivesFrom(x.Y, src, depth+1)
+	case *ssa.Phi:
+		for _, e := range x.Edges {
+			if c18DerivesFrom(e, src, depth+1) {
+				return true
+			}
+		}
+	}
+	return false
+}
+
+// c18ReadContract checks the bare Read calls of fn, a module method standing in for a
+// library reader: the io.Reader contract lets Read return n > 0 bytes together with an error
+// (typically the last bytes with io.EOF), so (a) the count must be used and (b) no return on
+// the error side may be reached before a branch has examined the count, unless the count
+// itself is handed on to the caller.
+func c18ReadContract(c *Ctx, fn *ssa.Function) (reads int, bad []string) {
+	for _, b := range fn.Blocks {
+		for _, in := range b.Instrs {
+			ci, ok := in.(*ssa.Call)
+			if !ok {
+				continue
+			}
+			cc := ci.Common()
+			_, recv, name := c18CallInfo(cc)
+			sig := cc.Signature()
+			if name != "Read" || sig.Params().Len() != 1 || sig.Results().Len() != 2 || !isErrorType(sig.Results().At(1).Type()) || !c18IsByteSlice(sig.Params().At(0).Type()) {
+				continue
+			}
+			reads++
+			cnt, errv := resultValue(ci, 0), resultValue(ci, 1)
+			if cnt == nil || cnt.Referrers() == nil || len(*cnt.Referrers()) == 0 {
+				bad = append(bad, fmt.Sprintf("%s.Read at %s: the byte count is ignored, so a read of 0 bytes is taken for data and bytes delivered with an error are dropped", recv, c.pos(posOf(ci))))
+				continue
+			}
+			if errv == nil {
+				continue // reported by nobody here: a module ByteReader dropping errors only ever under-reports
+			}
+			// branches that examine the count
+			nTest := map[*ssa.BasicBlock]bool{}
+			cut := map[edge]bool{}
+			for _, blk := range fn.Blocks {
+				if len(blk.Instrs) == 0 {
+					continue
+				}
+				if iff, ok := blk.Instrs[len(blk.Instrs)-1].(*ssa.If); ok && c18DerivesFrom(iff.Cond, cnt, 0) {
+					nTest[blk] = true
+					for _, sc := range blk.Succs {
+						cut[edge{blk, sc}] = true
+					}
+				}
+			}
+			before := reach(b, cut)
+			for _, e := range edgesOfVerdict(errv).Reject {
+				if !before[e.From] || nTest[e.From] {
+					continue
+				}
+				region := reachFromEdges([]edge{e}, cut)
+				for _, r := range returnsOf(fn) {
+					if !region[r.Block()] {
+						continue
+					}
+					hands := false
+					for _, res := range retResults(r) {
+						if c18DerivesFrom(res, cnt, 0) {
+							hands = true
+						}
+					}
+					if !hands {
+						bad = append(bad, fmt.Sprintf("%s.Read at %s: the error is tested before the byte count and the return at %s is reached without the count having been looked at: a Read that delivers the last byte(s) together with io.EOF loses them, and the final frame of the stream with them", recv, c.pos(posOf(ci)), c.pos(posOf(r))))
+					}
+				}
+			}
+		}
+	}
+	bad = c18Uniq(bad)
+	return
+}
+
+// c18ByteSource: resolve what the prefix/body reads of one ReadMsg read from, and hold module
+// types that stand in for a library reader to the io.Reader contract.
+func c18ByteSource(c *Ctx, s *c18Side) {
+	w := c.W
+	root := c18ShortFn(s.root)
+	type need struct {
+		T      types.Type
+		Method string
+	}
+	var needs []need
+	addNeed := func(t types.Type, m string) {
+		for _, n := range needs {
+			if n.Method == m && types.Identical(n.T, t) {
+				return
+			}
+		}
+		needs = append(needs, need{t, m})
+	}
+	var sources []string
+	seenSrc := map[string]bool{}
+	src := func(format string, a ...any) {
+		x := fmt.Sprintf(format, a...)
+		if !seenSrc[x] {
+			seenSrc[x] = true
+			sources = append(sources, x)
+		}
+	}
+	var unknown []string
+	nCalls := 0
+	resolve := func(stream ssa.Value, method, via string) {
+		nCalls++
+		d := &c18Dyn{}
+		c18DynTypes(w, stream, d, map[ssa.Value]bool{}, 0)
+		for _, t := range d.Types {
+			if c18ModuleType(t) {
+				addNeed(t, method)
+				src("module type %s (its %s is checked)", types.TypeString(t, func(p *types.Package) string { return p.Name() }), method)
+			} else {
+				src("library type %s", types.TypeString(t, func(p *types.Package) string { return p.Name() }))
+			}
+		}
+		for _, l := range d.Lib {
+			src("result of %s", l)
+		}
+		if d.Caller {
+			src("the caller's reader as given")
+		}
+		if d.Assert {
+			src("the caller's reader through a type assertion")
+			c.note("%s: %s reads from the caller's own reader when it implements the interface asserted in the constructor; its %s is the caller's responsibility and is not analysed", root, via, method)
+		}
+		for _, u := range d.Unknown {
+			unknown = append(unknown, via+": "+u)
+		}
+	}
+	for _, fn := range s.set {
+		for _, b := range fn.Blocks {
+			for _, in := range b.Instrs {
+				ci, ok := in.(ssa.CallInstruction)
+				if !ok {
+					continue
+				}
+				cc := ci.Common()
+				pkg, recv, name := c18CallInfo(cc)
+				switch {
+				case pkg == "encoding/binary" && recv == "" && (name == "ReadUvarint" || name == "ReadVarint") && len(cc.Args) >= 1:
+					resolve(cc.Args[0], "ReadByte", "binary."+name)
+				case pkg == "io" && recv == "" && (name == "ReadFull" || name == "ReadAtLeast" || name == "ReadAll") && len(cc.Args) >= 1:
+					resolve(cc.Args[0], "Read", "io."+name)
+				case pkg == "encoding/binary" && recv == "" && name == "Read" && len(cc.Args) >= 1:
+					resolve(cc.Args[0], "Read", "binary.Read")
+				case cc.IsInvoke() && (name == "ReadByte" || name == "Read"):
+					resolve(cc.Value, name, recv+"."+name)
+				}
+			}
+		}
+	}
+	if nCalls == 0 {
+		return // c18Chunking reports the absence of byte-obtaining calls
+	}
+	c.count("stream_objects_resolved", nCalls)
+	sort.Strings(sources)
+	if len(unknown) > 0 {
+		c.undecided("D4", root+"+byte-source", s.root.Pos(), "the object the reader reads from could not be resolved: %s", strings.Join(c18Uniq(unknown), "; "))
+	} else {
+		c.ok("D4", root+"+byte-source", s.root.Pos(), "%d byte-obtaining call(s) read from: %s", nCalls, strings.Join(sources, "; "))
+	}
+	// module types standing in for a library reader
+	checked := map[*ssa.Function]bool{}
+	for i := 0; i < len(needs) && i < 16; i++ {
+		n := needs[i]
+		m := w.methodOf(n.T, n.Method)
+		tname := types.TypeString(n.T, func(p *types.Package) string { return p.Name() })
+		if m == nil || m.Blocks == nil {
+			c.undecided("D4", root+"+byte-source("+tname+")", s.root.Pos(), "method %s of module type %s has no body to analyse", n.Method, tname)
+			continue
+		}
+		for _, fn := range c18StaticClosure(m, 3) {
+			if checked[fn] {
+				continue
+			}
+			checked[fn] = true
+			c.analysed(fn)
+			reads, bad := c18ReadContract(c, fn)
+			// what the module method itself reads from: follow module types one level further
+			for _, b := range fn.Blocks {
+				for _, in := range b.Instrs {
+					ci, ok := in.(*ssa.Call)
+					if !ok || !ci.Common().IsInvoke() {
+						continue
+					}
+					if nm := ci.Common().Method.Name(); nm == "Read" || nm == "ReadByte" {
+						d := &c18Dyn{}
+						c18DynTypes(w, ci.Common().Value, d, map[ssa.Value]bool{}, 0)
+						for _, t := range d.Types {
+							if c18ModuleType(t) {
+								addNeed(t, nm)
+							}
+						}
+					}
+				}
+			}
+			if reads == 0 && fn != m {
+				continue
+			}
+			if fn.Synthetic != "" && len(bad) == 0 {
+				continue // promoted method: a plain delegation to the embedded reader
+			}
+			construct := fnName(fn) + "+Read-contract"
+			if len(bad) == 0 {
+				c.ok("D4", construct, fn.Pos(), "module %s used as the reader's byte source: %d bare Read call(s), the count is used and examined before any return on the error side", fn.Name(), reads)
+			} else {
+				c.fail("D4", construct, fn.Pos(), "module type %s stands in for a library reader but its %s breaks the io.Reader contract: %s", tname, fn.Name(), strings.Join(bad, "; "))
+			}
+		}
 	}
 }
 
